@@ -170,6 +170,21 @@ CLAIMED = {
         "through libconfig_yyalloc / YYMALLOC = libconfig_malloc (seen by the census as wrapped).",
    technique="Coq proof over a translator-generated census (induction over allocation traces) + exhaustive fault injection (partial)",
    ref="5 (C13)"),
+ "C14": dict(
+   text="PARTIAL. Proved (Properties_C14.v, closed under the global context): for every number of threads, every "
+        "program per thread and every schedule, an interleaved run in which each operation acts on the configuration "
+        "object of the thread performing it gives each thread exactly the results and the final object of its program "
+        "run alone (generic frame theorem, induction over the schedule; instantiated with api_step and with the "
+        "read/write model rw_step); the premise - no function writes shared state - is tied to the code by the census "
+        "of writable static-storage objects that gen_census.py regenerates from /repo with clang's AST on every run "
+        "(only __libconfig_fatal_error_func is written, only by libconfig_set_fatal_error_func) and by the reentrant "
+        "scanner / pure parser flags read from scanner.c. No memory model: data races inside calls and in libc are "
+        "observed by a ThreadSanitizer build running 2..16 threads that read with @include, query, modify, write and "
+        "re-read their own objects, each iteration's results compared with the serial run.",
+   note="config_set_fatal_error_func (called by every C++ Config constructor) writes the one process-wide pointer and "
+        "is outside the statement, as the property's 'own configuration objects' wording implies.",
+   technique="Coq proof (frame/non-interference by induction over schedules) + translator census + TSan run (partial)",
+   ref="5 (C14)"),
 }
 
 REASON_PENDING = "not decided in the committed state of this round: the Coq theorem for this property is not yet in the tree, and a property is never claimed on testing alone (DESIGN.md section 11)"
